@@ -752,6 +752,39 @@ class Interp:
         raise CUnsupported("return type %r" % (r.ret,))
 
     def float_call(self, n, args):
+        """Float macros as uninterpreted functions (vf.uninterp), the same ones ILVM uses."""
+        if n == "HEX_GET_INSN_RMODE":
+            return (("enum",), "RMODE")
+        if n == "HEX_SETROUND":
+            return (("void",), None)
+        if n in ("FLOAT", "DOUBLE"):
+            w = 32 if n == "FLOAT" else 64
+            v = self.convert(self.ev(args[1]), (False, w))
+            return (("float", w), uninterp.bv2f(w, v)[2])
+        if n in ("fUNFLOAT", "fUNDOUBLE"):
+            w = 32 if n == "fUNFLOAT" else 64
+            f = self.ev(args[0])
+            if f[0] != ("float", w):
+                raise CUnsupported("%s of %r" % (n, f[0]))
+            r = uninterp.f2bv(("f", w, f[1]))
+            return ((False, w), r[1])
+        if n in ("HEX_INT_TO_D", "HEX_SINT_TO_D", "HEX_INT_TO_F", "HEX_SINT_TO_F"):
+            w = 64 if n.endswith("_D") else 32
+            src = S64 if "SINT" in n else U64
+            v = self.convert(self.ev(args[1]), src) & mask(64)
+            return (("float", w), uninterp.int_to_f(n[4:].lower(), w, v)[2])
+        if n in ("HEX_D_TO_INT", "HEX_D_TO_SINT", "HEX_F_TO_INT", "HEX_F_TO_SINT"):
+            w = 64 if "_D_" in n else 32
+            f = self.ev(args[1])
+            if f[0] != ("float", w):
+                raise CUnsupported("%s of %r" % (n, f[0]))
+            r = uninterp.f_to_int(n[4:].lower(), ("f", w, f[1]))
+            return (U64, r[1])
+        if n == "IS_INF":
+            f = self.ev(args[0])
+            if f[0][0] != "float":
+                raise CUnsupported("IS_INF of %r" % (f[0],))
+            return (INT, 1 if uninterp.fpred("is_inf", ("f", f[0][1], f[1])) else 0)
         raise CUnsupported("float call %s" % n)
 
 
